@@ -990,3 +990,37 @@ def _rscaled(run, k, r):
     from .libnp import rscale
     return SeqV('R', rscale(real(k), _seq(run, r, 'R').term))
 
+
+
+# ------------------------------------------------------------------------------ LSH sign-pattern code (C11)
+signcode = F('signcode', RSeq, Mat, Int, Real)      # sum_{t < n} 2^t [x . col_t(P) > 0]
+pow2 = F('pow2', Int, Int)
+_xv = z3.Const('xv', RSeq)
+_P = z3.Const('P', smt.Mat)
+_t = z3.Int('t')
+smt.axiom('signcode.zero', smt.forall([_xv, _P], signcode(_xv, _P, 0) == 0, [signcode(_xv, _P, 0)]), ['signcode'])
+
+
+@specfn('signcode')
+def _signcode(run, x, P, n):
+    """binary code of the sign pattern of x under the first n columns of P: sum_{t<n} 2^t [x . P_t > 0]"""
+    return Num(signcode(_seq(run, x, 'R').term, P.term, intterm(n)))
+
+
+@specfn('unfold_signcode')
+def _unfold_signcode(run, X, P, i):
+    """definitional unfolding of signcode at step i for every row of X (an instance of the recursive definition
+    signcode(x, P, i+1) = signcode(x, P, i) + 2^i [x . P_i > 0]; stated per step so that E-matching cannot unfold the
+    recursion without bound).  Adds the instance to the current path and is itself true."""
+    la = _la()
+    from .libcalls import mrow, mcol
+    r = smt.bound('rsc', Int)
+    it = intterm(i)
+    row = mrow(X.term, r)
+    nxt = smt.fresh('next_i', Int)
+    run.st.assume(nxt == it + 1)
+    inst = z3.ForAll([r], signcode(row, P.term, nxt) == signcode(row, P.term, it) +
+                     z3.If(la.vdot(row, mcol(P.term, it)) > 0, z3.ToReal(pow2(it)), z3.RealVal(0)),
+                     patterns=[signcode(row, P.term, nxt)])
+    run.st.assume(z3.Implies(it >= 0, inst))
+    return BoolV(z3.BoolVal(True))
